@@ -352,6 +352,7 @@ pub fn run_prop<P: Prop>(p: &P, tier: Tier, seed: u64) -> i32 {
 
     // ---- confirm unknown violations on a fresh calculator, twice ----
     let mut machinery_error = false;
+    let mut unreproducible = 0usize;
     let mut reported = 0usize;
     let mut seen_sig: std::collections::HashSet<String> = Default::default();
     for v in unknown.iter() {
@@ -364,11 +365,15 @@ pub fn run_prop<P: Prop>(p: &P, tier: Tier, seed: u64) -> i32 {
         let a = rerun(p, &v.case);
         let b = rerun(p, &v.case);
         if a.violation.is_none() || b.violation.is_none() || a.observed != b.observed {
+            // The case failed on a calculator that had evaluated other cases before and holds on a
+            // fresh one: either the harness is not deterministic or evaluation changed the
+            // calculator (C04's subject).  It is never reported as a violation of this property;
+            // it is a machinery exit unless another violation of this run is confirmed.
             eprintln!(
-                "MACHINERY: violation not reproducible on a fresh calculator (input {:?}): first {:?} / replay {:?} / replay {:?}",
+                "NOTE: a violation was not reproducible on a fresh calculator (input {:?}): first {:?} / replay {:?} / replay {:?}",
                 v.verdict.input, v.verdict.observed, a.observed, b.observed
             );
-            machinery_error = true;
+            unreproducible += 1;
             continue;
         }
         let path = write_replay(p, reported, v);
@@ -378,6 +383,10 @@ pub fn run_prop<P: Prop>(p: &P, tier: Tier, seed: u64) -> i32 {
         println!("  expected: {}", v.verdict.expected);
         println!("  observed: {}", v.verdict.observed);
         reported += 1;
+    }
+    if unreproducible > 0 && reported == 0 {
+        eprintln!("MACHINERY: {} violation(s) seen on a re-used calculator, none reproducible on a fresh one", unreproducible);
+        machinery_error = true;
     }
     // full list of unlisted violations of this run for triage (inputs only, one per line)
     {
@@ -492,6 +501,7 @@ pub fn run_prop<P: Prop>(p: &P, tier: Tier, seed: u64) -> i32 {
         return 2;
     }
     if unknown_total > 0 {
+        // at least one of them was confirmed on a fresh calculator (otherwise machinery_error)
         return 1;
     }
     0
